@@ -109,5 +109,6 @@ func transC02(r *Repo) []Fact {
 		out = append(out, unknownFact("dagChannelTranslated", "Bool", "false", "compose/dag.go", "not in the translated subset: "+strings.Join(dag.errs, "; ")))
 	}
 	out = append(out, mgrFact(mgr))
+	out = append(out, transStep(r, mgr))
 	return out
 }
